@@ -37,15 +37,22 @@ def split_tag(s):
     return s.rstrip(), None
 
 def split_top(s, sep=","):
-    """split at top-level separators (outside brackets, strings)."""
-    out, d, cur, i = [], 0, [], 0
+    """split at top-level separators (outside brackets, strings and quantifier binders |..|)."""
     toks = lex(s)
-    pos = 0
     parts = []
     last = 0
-    for t in toks:
+    d = 0
+    in_binder = False
+    for i, t in enumerate(toks):
         if t.kind == "punct":
-            if t.text in OPEN or t.text == "|" and False:
+            if in_binder:
+                if t.text == "|":
+                    in_binder = False
+                continue
+            if t.text == "|" and i > 0 and toks[i - 1].kind == "ident" and toks[i - 1].text in ("forall", "exists", "choose"):
+                in_binder = True
+                continue
+            if t.text in OPEN:
                 d += 1
             elif t.text in CLOSE:
                 d -= 1
@@ -81,7 +88,7 @@ def parse_fields(rest):
     parts = [p.strip() for p in rest.split(" :: ")]
     pos, kw = [], {}
     for p in parts:
-        m = re.match(r"(requires|ensures|invariant|decreases|iter|invariant_except_break|ensures_loop|body)\b\s*(.*)$", p, re.S)
+        m = re.match(r"(requires|ensures|invariant|decreases|iter|invariant_except_break|ensures_loop|body|post)\b\s*(.*)$", p, re.S)
         if m:
             kw[m.group(1)] = m.group(2).strip()
         else:
@@ -611,6 +618,8 @@ def instantiate_fn(fs, item, em):
                                             "text": cexpr, "marker": obid})
             bo = toks[L["body_open"]]
             edits.append((bo.start, bo.start, "\n" + "\n".join("                " + x for x in ltxt) + "\n            "))
+            if spec.get("body"):
+                edits.append((bo.end, bo.end, " " + spec["body"]))
         # ---- nested fns
         for nname, spec in fs.nested.items():
             nk = find_nested_fn(toks, lo + 1, hi, nname)
@@ -791,6 +800,56 @@ def instantiate_fn(fs, item, em):
                     k += 1
                 if not found:
                     degraded.append("fold rule: occurrence %d not found" % n)
+            elif rule in ("filter_collect", "map_collect"):
+                # RECV.into_iter().filter(CL).collect()  /  RECV.into_iter().map(CL).collect()
+                # (R-filter-collect / R-map-collect: definitions of Iterator::filter|map + collect into Vec)
+                meth = rule.split("_")[0]
+                cnt = 0
+                found = False
+                k = lo
+                while k + 7 < hi:
+                    tt = [toks[k + j].text for j in range(0, 7)]
+                    if tt == [".", "into_iter", "(", ")", ".", meth, "("]:
+                        cnt += 1
+                        if cnt == max(n, 1):
+                            r = recv_start(toks, k)
+                            recv = text[toks[r].start:toks[k - 1].end]
+                            fclose = match_close(toks, k + 6)
+                            j = fclose + 1
+                            if not (toks[j].text == "." and toks[j + 1].text == "collect"):
+                                raise GenError("%s: %s rule: .collect expected" % (fnkey, rule))
+                            j += 2
+                            if toks[j].text == "::":
+                                j = angle_skip(toks, j + 1)
+                            if not (toks[j].text == "(" and toks[j + 1].text == ")"):
+                                raise GenError("%s: %s rule: `()` expected after collect" % (fnkey, rule))
+                            endtok = toks[j + 1]
+                            it = kws.get("iter", "__it")
+                            ety = pos[0] if pos else "_"
+                            inv = []
+                            if kws.get("invariant"):
+                                inv.append("invariant")
+                                for ci, cexpr in enumerate(split_top(kws["invariant"]), 1):
+                                    obid = "%s#%s%dinv%d" % (fnkey, meth[:2] + "c", cnt, ci)
+                                    inv.append("    %s,  /*@ob %s*/" % (cexpr, obid))
+                                    em._pending.append({"id": obid, "kind": "loop-invariant", "fn": fnkey,
+                                                        "tags": list(fs.tags), "text": cexpr, "marker": obid})
+                            edits.append((toks[r].start, toks[k + 6].end, "{ let __src = %s.into_iter(); let __f = " % recv))
+                            if meth == "filter":
+                                step = "if __f(&__x) { __out.push(__x); }"
+                            else:
+                                step = "__out.push(__f(__x));"
+                            edits.append((toks[fclose].start, endtok.end,
+                                          "; let mut __out: Vec<%s> = Vec::new(); for __x in %s: __src\n" % (ety, it) +
+                                          "\n".join("                " + x for x in inv) +
+                                          "\n            { %s %s } %s __out }" % (kws.get("body", ""), step, kws.get("post", ""))))
+                            log.append("R-%s-collect: `%s.into_iter().%s(CL).collect()` rewritten to an explicit loop calling CL (line %d)" % (
+                                meth, recv, meth, item.line0 + text.count("\n", 0, toks[k].start)))
+                            found = True
+                            break
+                    k += 1
+                if not found:
+                    degraded.append("%s rule: occurrence %d not found" % (rule, n))
             elif rule == "collect_result":
                 # X.iter().cloned().map(F).collect::<Result<Vec<T>, E>>()?   (R-collect-result)
                 cnt = 0
